@@ -178,12 +178,17 @@ def mimc_hash(arr, key):
 
 
 # ---- helpers
+GLOB = {'gQ': Q, 'gZero': 0, 'gOne': 1, 'gMinusOne': -1, 'gA': A, 'gD': D, 'gOrder': ORDER, 'gSubOrder': L, 'gB8x': B8[0], 'gB8y': B8[1]}
+
+
 def parse(tok):
     if tok.startswith('x'):
         return bytes.fromhex(tok[1:])
     if tok.startswith('['):
         s = tok[1:-1]
         return [int(v) for v in s.split(',')] if s else []
+    if tok in GLOB:
+        return GLOB[tok]
     if tok in ('true', 'false'):
         return tok == 'true'
     if tok == 'nil':
